@@ -29,6 +29,7 @@ type realTask struct {
 	parseErr  bool // the script does not parse: a failure without an exit status, before any process starts
 	allowFail bool
 	ignoreInt bool // the process ignores SIGINT: only the kill timeout ends it
+	signaled  bool // the task's last command kills itself with SIGKILL (exit 137): a failure like any other
 }
 
 func (t realTask) fails() bool { return t.exit != 0 || t.parseErr }
@@ -46,8 +47,10 @@ func genRealGraph(t *rapid.T, maxTasks int, withFailures bool) []realTask {
 		}
 		if withFailures {
 			if rapid.IntRange(0, 3).Draw(t, "fails") == 0 {
-				if rapid.IntRange(0, 3).Draw(t, "parseError") == 0 {
+				if k := rapid.IntRange(0, 4).Draw(t, "parseError"); k == 0 {
 					rtk.parseErr = true
+				} else if k == 1 {
+					rtk.signaled, rtk.exit = true, 137
 				} else {
 					rtk.exit = rapid.IntRange(1, 120).Draw(t, "exitCode")
 				}
@@ -70,8 +73,13 @@ func graphDef(vh, marker, ready string, ts []realTask, cont bool) definition.Pip
 		if tk.parseErr {
 			script = "echo 'unterminated " + tk.name
 		}
+		lines := []string{script}
+		if tk.signaled {
+			// the helper ends normally, then a command of the task dies from a signal nobody of the runner sent
+			lines = []string{fmt.Sprintf("%s hang %s-%s --ready %s.%s --for %dms --exit 0", vh, marker, tk.name, ready, tk.name, tk.durMs), "sh -c 'kill -KILL $$'"}
+		}
 		pd.Tasks[tk.name] = definition.TaskDef{
-			Script:       []string{script},
+			Script:       lines,
 			DependsOn:    tk.deps,
 			AllowFailure: tk.allowFail,
 		}
@@ -85,6 +93,9 @@ func describeGraph(ts []realTask) string {
 		s := fmt.Sprintf("%s<-%v %dms", tk.name, tk.deps, tk.durMs)
 		if tk.exit != 0 {
 			s += fmt.Sprintf(" exit%d", tk.exit)
+		}
+		if tk.signaled {
+			s += "(killed by a signal)"
 		}
 		if tk.parseErr {
 			s += " parse-error"
@@ -128,7 +139,7 @@ func failedAncestors(ts []realTask) map[string]bool {
 
 // TestC08Real: failure handling and verdict with the real task runner.
 func TestC08Real(t *testing.T) {
-	col := ev.Get("C08", "realrunner", "real TaskRunner and real processes: a generated graph of 2-5 tasks (each 'vhelper hang --for 5-90ms --exit N'), a quarter of the tasks failing (with an exit status, or - a quarter of those - with a script that does not parse, i.e. without exit status), a quarter marked allow_failure, fail-fast or continue_running_tasks_after_failure; oracle from the final report and from which helper processes actually started: a task with a failed non-allowed ancestor never starts; continue => every task without such an ancestor runs to its end, job completed, not canceled, last error set; fail-fast => job ends with an error; plain success iff every task succeeded or failed under allow_failure; exit codes and errored flags of the tasks agree with the scripts; non-trivial = a non-allowed failure with a dependent task, or an allowed failure with a dependent; distinct by graph")
+	col := ev.Get("C08", "realrunner", "real TaskRunner and real processes: a generated graph of 2-5 tasks (each 'vhelper hang --for 5-90ms --exit N'), a quarter of the tasks failing (with an exit status, or - a quarter of those - with a script that does not parse, i.e. without exit status), a quarter marked allow_failure, fail-fast or continue_running_tasks_after_failure; oracle from the final report and from which helper processes actually started: a task with a failed non-allowed ancestor never starts; continue => every task without such an ancestor runs to its end, job completed, not canceled, last error set; fail-fast => job ends with an error; plain success iff every task succeeded or failed under allow_failure; exit codes and errored flags of the tasks agree with the scripts; non-trivial = a non-allowed failure with a dependent task, or an allowed failure with a dependent; distinct by graph Failing tasks fail with an exit status, with a script that does not parse, or because their last command is killed by a signal nobody of the runner sent (exit 137).")
 	vh := helper(t)
 	rapid.Check(t, func(rt *rapid.T) {
 		ts := genRealGraph(rt, 5, true)
